@@ -93,7 +93,8 @@ Init == /\ omit \in [Params -> OmitChoices]
 (* ---- the funnel ---- *)
 Suppressed(e, om, tm, v, er) ==
     IF er # Ok THEN Base(er) = Base(e.err)                       \* repeated identical error
-               ELSE e.err = Ok /\ e.val = v /\ tm < e.ts + om    \* unchanged within the window
+               ELSE /\ e.err = Ok /\ e.val = v             \* unchanged within the window; a value that
+                    /\ e.ts # 0 /\ tm < e.ts + om           \* was never stamped is infinitely old
 NewEntry(e, tm, v, er) ==
     IF er # Ok THEN [val |-> e.val, err |-> er, ts |-> tm]
                ELSE [val |-> v, err |-> Ok, ts |-> tm]
